@@ -36,51 +36,24 @@ class Host:
         if line.strip() != "READY":
             raise core.HarnessError("shim host did not start: %r" % line)
 
-    def run(self, top, root, cfg, ops, seed, pl, on_pause=None):
-        """returns dict(ops=[...], calls=[...], status=int, killed=bool)"""
+    def start(self, top, root, cfg, ops, seed, pl):
+        """begin a run; returns a Session the controller steps through"""
         cmd = {"top": top, "root": root, "cfg": dict(cfg), "ops": [list(o) for o in ops], "seed": seed, "plan": pl}
         self.proc.stdin.write(json.dumps(cmd) + "\n")
         self.proc.stdin.flush()
-        oplist = []
-        calls = []
-        res = None
-        killed_at = None
+        return Session(self)
+
+    def run(self, top, root, cfg, ops, seed, pl, on_pause=None):
+        """returns dict(ops=[...], calls=[...], status=int, killed_at=...)"""
+        sess = self.start(top, root, cfg, ops, seed, pl)
         while True:
-            line = self.logf.readline()
-            if not line:
-                raise core.HarnessError("shim host died")
-            tag = line[0]
-            if line.startswith("END "):
-                status = int(line.split()[1])
+            ev = sess.next_pause()
+            if ev is None:
                 break
-            if tag in "OP":
-                _, i, kind, length, paths = line.rstrip("\n").split(" ", 4)
-                p = paths.split("|")
-                rec = {"i": int(i), "kind": kind, "len": int(length), "path": p[0], "path2": p[1] if len(p) > 1 else None,
-                       "ret": None, "errno": None}
-                oplist.append(rec)
-                if tag == "P":
-                    if on_pause is not None:
-                        on_pause("before", rec, oplist, calls)
-                    os.write(self.ack_w, b"x")
-            elif tag == "T":
-                _, i, ret, err = line.split()
-                for rec in reversed(oplist):
-                    if rec["i"] == int(i):
-                        rec["ret"], rec["errno"] = int(ret), int(err)
-                        break
-            elif tag == "Q":
-                _, i, kind = line.split()
-                if on_pause is not None:
-                    on_pause("after", oplist[-1] if oplist else None, oplist, calls)
-                os.write(self.ack_w, b"x")
-            elif tag == "K":
-                killed_at = int(line.split()[1])
-            elif line.startswith("CALL "):
-                calls.append(json.loads(line[5:]))
-            elif line.startswith("RES "):
-                res = json.loads(line[4:])
-        return {"ops": oplist, "calls": calls, "res": res, "status": status, "killed_at": killed_at}
+            when, rec = ev
+            if on_pause is not None:
+                on_pause(when, rec, sess.ops, sess.calls)
+        return sess.result()
 
     def close(self):
         try:
@@ -95,6 +68,69 @@ class Host:
             os.close(self.ack_w)
         except OSError:
             pass
+
+
+class Session:
+    """one run of the writer child; the controller decides when each paused operation proceeds"""
+
+    def __init__(self, host):
+        self.h = host
+        self.ops = []
+        self.calls = []
+        self.res = None
+        self.status = None
+        self.killed_at = None
+        self.pending_ack = False
+        self.done = False
+
+    def next_pause(self):
+        """let the writer run to its next pause; returns (when, op record) or None at the end"""
+        if self.done:
+            return None
+        if self.pending_ack:
+            os.write(self.h.ack_w, b"x")
+            self.pending_ack = False
+        while True:
+            line = self.h.logf.readline()
+            if not line:
+                raise core.HarnessError("shim host died")
+            tag = line[0]
+            if line.startswith("END "):
+                self.status = int(line.split()[1])
+                self.done = True
+                return None
+            if tag in "OP":
+                _, i, kind, length, paths = line.rstrip("\n").split(" ", 4)
+                p = paths.split("|")
+                rec = {"i": int(i), "kind": kind, "len": int(length), "path": p[0], "path2": p[1] if len(p) > 1 else None,
+                       "ret": None, "errno": None}
+                self.ops.append(rec)
+                if tag == "P":
+                    self.pending_ack = True
+                    return ("before", rec)
+            elif tag == "T":
+                _, i, ret, err = line.split()
+                for rec in reversed(self.ops):
+                    if rec["i"] == int(i):
+                        rec["ret"], rec["errno"] = int(ret), int(err)
+                        break
+            elif tag == "Q":
+                self.pending_ack = True
+                return ("after", self.ops[-1] if self.ops else None)
+            elif tag == "K":
+                self.killed_at = int(line.split()[1])
+            elif line.startswith("CALL "):
+                self.calls.append(json.loads(line[5:]))
+            elif line.startswith("RES "):
+                self.res = json.loads(line[4:])
+
+    def finish(self):
+        while self.next_pause() is not None:
+            pass
+        return self.result()
+
+    def result(self):
+        return {"ops": self.ops, "calls": self.calls, "res": self.res, "status": self.status, "killed_at": self.killed_at}
 
 
 _host = None
